@@ -379,6 +379,11 @@ class Core:
             d = dotted(e)
             if d is None:
                 raise Untranslatable(f"{where()}: attribute of a non-name")
+            root = d.split(".")[0]
+            if root in ctx.get("elems", {}) and "(" not in d:
+                # an attribute of the loop element: a field of the element
+                full, _, idx = ctx["elems"][root]
+                return f"(env (Py.ikey {lean_str(full)} {idx} {lean_str(d[len(root):])}))"
             c = self.const_lookup(d)
             if c is not None:
                 return self.const(c, where())
@@ -548,6 +553,25 @@ class Core:
             return self.block(rest, k, ctx, ind)
         if isinstance(s, ast.Expr) and isinstance(s.value, ast.Constant) and isinstance(s.value.value, str):
             return self.block(rest, k, ctx, ind)
+        if isinstance(s, ast.Return) and isinstance(s.value, ast.Call) and isinstance(s.value.func, ast.Name) \
+                and s.value.func.id in ("all", "any") and len(s.value.args) == 1 and not s.value.keywords \
+                and isinstance(s.value.args[0], ast.GeneratorExp) and len(s.value.args[0].generators) == 1 \
+                and not s.value.args[0].generators[0].ifs and not s.value.args[0].generators[0].is_async:
+            # `return all(E for x in xs)` is the loop `for x in xs: if not E: return False` followed by `return True` (any: dually)
+            gen = s.value.args[0]
+            comp = gen.generators[0]
+            is_all = s.value.func.id == "all"
+            test = ast.UnaryOp(op=ast.Not(), operand=gen.elt) if is_all else gen.elt
+            loop = ast.For(target=comp.target, iter=comp.iter,
+                           body=[ast.If(test=test, body=[ast.Return(value=ast.Constant(value=not is_all))], orelse=[])], orelse=[])
+            tail = ast.Return(value=ast.Constant(value=is_all))
+            for node in (loop, tail):
+                ast.copy_location(node, s)
+                ast.fix_missing_locations(node)
+            # the loop variable of a generator expression is local to it
+            ctx["locals"].update(n.id for n in ast.walk(comp.target) if isinstance(n, ast.Name))
+            ctx.setdefault("genvars", set()).update(n.id for n in ast.walk(comp.target) if isinstance(n, ast.Name))
+            return self.block([loop, tail], k, ctx, ind)
         if isinstance(s, ast.Return) and s.value is not None and self.elem_call(s.value, ctx) is None \
                 and self.first_elem_call(s.value, ctx) is not None:
             pre, val2, inner = self.hoist(s.value, ctx, pad)
